@@ -46,6 +46,8 @@ CLAIMED = {
          "bounds: one block; all uint32 values; the ~70 History.Append sites of dpos/state that touch maps and producers (whose inverse property needs transaction-validity preconditions) are not encoded — the general statement over generated block histories is NOT decided"),
  "C30": ("4 C30", "State.IsIrreversible for arbitrary heights: whenever it lets a reorganisation of d blocks below a tip at height cur proceed (past CRCOnlyDPOSHeight), no detached height is at or below LastIrreversibleHeight. connectBestChain on the C12 block trees with a recording store seam: a reorganisation is attempted only if the lowest block it would detach lies above LastIrreversibleHeight. LastIrreversibleHeight itself never decreases (C21 harness).",
          "bounds: as C12 (trees of <= 7 nodes); heights at or below CRCOnlyDPOSHeight are exempt as in the code; BlockChain.ReorganizeChain (only caller is an unreachable branch of mempool.CheckConfirmedBlockOnFork) passes the new block's height to the guard and is not encoded"),
+ "C15": ("4 C15", "Serialized-block send cache of p2p.WriteMessage: every sequence of 4 sends (5 thorough) of blocks from a pool of 3, each with or without confirm, over a recording net.Conn: the bytes on the wire after the header equal a fresh serialization of that block, and the eviction queue, the cache map and the number of cached serializations stay within BlocksCacheSize. Transaction-reference cache (UTXOCache.GetTxReference / InsertReference / CleanCache / CleanTxCache) over a fake IUTXOCacheStore with the limit shrunk to 2: two lookups with arbitrary inputs (known / unknown transaction, index in / out of range) and arbitrary cleans in between answer exactly as the store does and the cache stays within its bound.",
+         "bounds: send sequences of length 4 (5), pool of 3 blocks; 2 reference lookups of 1..2 inputs over 2 stored transactions; this is exhaustive symbolic enumeration of operation sequences (almost all values are concrete); the indexed-transaction cache (indexers.TxCache) and the decoded-block cache of ChainStoreFFLDB.GetBlock sit on ffldb and are NOT encoded; staleness across a reorganisation is not modelled (reorganizeChain calls CleanCache first)"),
 }
 
 # thorough tier (deeper bounds + every unsat cross-checked with z3 5.1.0) is
@@ -60,7 +62,6 @@ NA = {
  "C08": "same obstacle as C07 (hash injectivity) plus recursive tree traversal over symbolic sizes; not built",
  "C10": "commitment soundness needs hash injectivity (see C07); the crash-freedom half of AuxPow.Check is claimed under C03",
  "C14": "indexers read and write ffldb buckets: not encodable (see C13)",
- "C15": "cache transparency is a history property over go-cache / map-backed structures with database fall-through: not built",
  "C16": "ffldb over leveldb + treap with real file I/O: the code the property depends on cannot be encoded",
  "C22": "same as C21 for cr/state",
  "C23": "checkpoint Serialize/Deserialize round trip over maps of producers: encodable in principle, not built in this session",
